@@ -4,6 +4,7 @@ import MockeryModel.Generated.VisitorFacts
 import MockeryLemmas.Types
 import MockeryProps.C14
 import MockeryLemmas.Discover
+import MockeryLemmas.MethodSet
 /-!
 # C02 — the generated mock type implements exactly the source interface
 
@@ -123,5 +124,30 @@ example :
     let o := finishMethod m.name (methodData ({ dstPkgPath := "p", inPackage := false, imports := [] } : Registry) ["T"] m).2
     (o.params.map (fun v => (v.typeString, v.variadic)), o.results.map (·.typeString)) =
       ([("context.Context", false), ("[]int", true)], ["string", "error"]) := by decide
+
+
+/-! ### the method set (`go/types`: `Complete`) -/
+
+/-- **the full method set**: every method declared by the interface or – through any depth of embedding –
+by an embedded interface (`allMethods` walks the whole declaration tree) is in the method set handed to
+the generator; nothing else is; a method reached along several paths is there once; the set is sorted by
+name (the order the mock's methods are emitted in). -/
+theorem method_set_exact (d : IfaceDecl) :
+    (∀ m ∈ allMethods d, m.name ∈ names (methodSet d)) ∧ (∀ x ∈ methodSet d, x ∈ allMethods d) ∧
+    (names (methodSet d)).Nodup ∧ SortedByName (methodSet d) :=
+  ⟨methodSet_complete d, methodSet_sound d, methodSet_distinct d, methodSet_sorted d⟩
+
+/-- methods of an embedded interface are promoted, whatever it embeds itself -/
+theorem embedded_methods_promoted (d e : IfaceDecl) (he : e ∈ d.embeds) (m : MethodSig) (hm : m ∈ allMethods e) :
+    m.name ∈ names (methodSet d) :=
+  methodSet_complete d m (mem_allMethods_embedded d e m he hm)
+
+/-- non-vacuity: two levels of embedding with a diamond (`M` is reached directly and through `RC`) -/
+example :
+    let i : IfaceDecl := .mk [⟨"M", .basic ""⟩] []
+    let closer : IfaceDecl := .mk [⟨"Close2", .basic ""⟩] []
+    let rc : IfaceDecl := .mk [⟨"Flush2", .basic ""⟩] [i, closer]
+    names (methodSet (.mk [⟨"Put", .basic ""⟩, ⟨"Apply", .basic ""⟩] [rc, i])) = ["Apply", "Close2", "Flush2", "M", "Put"] := by
+  decide
 
 end Mockery.C02
